@@ -29,13 +29,23 @@ CLAIMED = {
              "the left operand's representation): the comparison is exactly the order of the instants for all valid "
              "whole-second operands in any mix of representations/offsets/24:00; the six operators, trichotomy, "
              "symmetry, transitivity, hash-key equality for equal instants and the sign of a-b follow as theorems. "
-             "Decimal (float) forms are observed only (cmpfrac stream, exact Fractions as reference).",
+             "Precision forms: Props/C02q proves the same (C02_cmp_rat, C02_operators_rat, C02_hash_rat, C02_sub_sign_rat) "
+             "for the model cmpQ/hashKeyQ that runs _cmp/__hash__ over exact rationals with the minute/second slots "
+             "possibly None (decimal-hour/-minute/-second forms, mixed freely), and that it coincides with the integer "
+             "model on whole-second input. Python computes in binary64: cmpq/hashq tie the rational model to it (exact "
+             "agreement on distinct instants); for two spellings of exactly the same instant through values binary64 "
+             "cannot hold the float implementation deviates - known findings F16 (equal points hash differently) and "
+             "F17 (inconsistent comparison), matched only on such pairs.",
         design="DESIGN §8 C02",
         technique="Lean 4 proof (refinement of _cmp to the order of instants) + model/implementation correspondence"),
     "C04": dict(
         text="Theorems over the Lean model of TimePoint.__sub__(TimePoint) (swap test, re-zone, ordinal dates, closed-form "
              "year range, borrow chain): the result is a d/h/m/s duration of length inst a - inst b with |h|<24, |m|,|s|<60 "
-             "and one sign; antisymmetry, b+(a-b)==a and (p+d)-p==d follow. Float operands observed only (F13 known finding).",
+             "and one sign; antisymmetry, b+(a-b)==a and (p+d)-p==d follow. Precision forms: C04_sub_rat / C04_add_back_rat "
+             "(Props/C02q) prove the same for subTPQ over exact rationals with possibly absent minute/second slots, extending "
+             "the integer model; the subq op ties it to the Python (length to 1 us, shape clauses judged on the "
+             "implementation). Float-only deviations are known findings F13 (seconds == 60.0) and F17b (noise of mixed sign or "
+             "RecursionError for two float spellings of exactly the same instant).",
         design="DESIGN §8 C04",
         technique="Lean 4 proof + model/implementation correspondence"),
     "C05": dict(
@@ -50,7 +60,12 @@ CLAIMED = {
         text="Theorems over the Lean model of to_time_zone/to_utc and TimeZone.__init__: re-zoning keeps the instant, carries "
              "exactly the requested offset, keeps the representation and yields valid local fields, for every legal offset "
              "-99:59..+99:59; equal/hash-equal/zero difference follow from C02/C04; the constructor accepts exactly the legal "
-             "offsets. Literal-zone dump formats are exercised end-to-end by the correspondence (dumpzone op), not yet modelled.",
+             "offsets. Literal zones in dump formats (Props/C06b): C06_literal_zone_read - the dumper reads every legal literal "
+             "+-hh:mm back as that offset; C06_dump_literal_zone(+_bounds) - dumping any valid point with CCYY-MM-DD / CCYY-DDD / "
+             "CCYY-Www-D, Thh:mm:ss and a literal zone prints the point re-zoned to that zone (bounds error iff the re-zoned year "
+             "leaves 0000-9999); C06_dump_literal_zone_roundtrip - that text parses back to a point at the same instant "
+             "carrying exactly the literal offset. Precision forms: C06_to_time_zone_rat over exact rationals (tzq op). Other "
+             "literal spellings (+hhmm, +hh, Z in custom formats) and expanded years: dumpzone/tdump correspondence.",
         design="DESIGN §8 C06",
         technique="Lean 4 proof (corollary of C01) + model/implementation correspondence"),
     "C11": dict(
@@ -120,12 +135,14 @@ CLAIMED = {
     "C20": dict(
         text="Theorems over the Lean model of add_truncated (each while-loop mirrored with a fuel bound): every loop returns "
              "the first point along its walk whose field equals the target, each step moving the instant forward by exactly "
-             "one unit (so the result is valid, in p's offset, never earlier than p); the second/minute/hour/weekday loops "
-             "always terminate within their fuel; for the time-of-day shapes the result is exactly the earliest matching "
-             "date-time with lower fields zero, and applying t again returns it. PARTIAL: termination of the day-of-month/"
-             "day-of-year/week loops within the fuel and shapes with a day designator are decided by the correspondence "
-             "(thorough tier: every field value, every mode), not yet by theorem; minimality fails for day+minute/second "
-             "without hour (known finding F9, proved counter-witness).",
+             "one unit; C20_terminates - for every valid point and every legal truncation (any combination, every mode) all "
+             "loops end within their fuel and the result is valid, in p's offset, not earlier than p; C20_matches - the result "
+             "carries every specified time field (lower ones zero) and, for the property's shapes, the specified day "
+             "designator; earliest match: C20_seconds/_minutes/_hours (time-of-day shapes), C20_day_only_earliest (one day "
+             "designator, time of day kept), C20_day_hour_earliest (day designator + hour[:minute[:second]]); idempotence for "
+             "all of them (C20_idempotent, C20_day_idempotent); zone alignment (C20_zone). Proved counter-witnesses: minimality "
+             "fails for a day designator with minute/second but no hour (known finding F9); two unrelated day designators "
+             "disturb each other and a week alone keeps p's weekday (both outside the property's shapes, recorded).",
         design="DESIGN §8 C20",
         technique="Lean 4 proof (loop specification + periodicity by linear arithmetic) + model/implementation correspondence"),
     "C16": dict(
@@ -152,31 +169,35 @@ CLAIMED = {
         design="DESIGN §8 C19",
         technique="Lean 4 proof (decision logic stated outright) + plan-execution correspondence against the real CLI"),
     "C09": dict(
-        text="Theorems over the Lean model of TimePoint.__init__/_check_bounds/TimeZone.__init__ (integral arguments): "
-             "soundness - whatever subset of keyword arguments is given, an accepted point is a real date-time of the "
-             "active mode (month 1..12, day within the month/year/week-year, weekday 1..7, hour <= 24 with 24 only as "
-             "24:00:00, minute/second < 60, zone parts in range and of one sign); completeness - every valid point's "
-             "fields are accepted and give exactly that point; two representations at once or a missing year are refused; "
-             "C09_exceptions decides by kernel evaluation that every raise site of the parsers, tables, dumper and "
-             "constructor path raises a class whose live MRO contains ValueError. PARTIAL: 'for arbitrary text: never "
-             "another exception type, never a hang' is observed on a mutation/splice/garbage stream through the three "
-             "parsers in 11 configurations (known findings F10 cost, F11 TypeError), not proved.",
+        text="Theorems over the Lean model. Constructor (TimePoint.__init__/_check_bounds/TimeZone.__init__, integral "
+             "arguments): C09_accept_sound / C09_accept_complete / C09_conflicts - an accepted point is a real date-time of the "
+             "active mode and every valid point is accepted. Text (Props/C09b): C09_text_accept_sound(+_decimal, _bounds) - for "
+             "ANY text, parser tables and configuration, whatever TimePointParser accepts is a real date-time of the mode (month, "
+             "day within month/year/week-year, weekday, hour <= 24 with 24 only as 24:00:00 and zero fractions, minute/second "
+             "< 60, legal one-signed offset); C09_text_total; C09_text_reject_examples / C09_text_mode_examples - kernel-decided "
+             "tables of 47 + 16 impossible texts refused under every table and configuration, with their nearest valid twins "
+             "accepted, per calendar mode. C09_exceptions decides over the regenerated table that every raise site raises a "
+             "class whose live MRO contains ValueError. PARTIAL: 'never another exception type, never a hang' of the Python "
+             "on arbitrary text is observed on mutation/splice/garbage streams through the three parsers in 11 configurations "
+             "(known findings F10 cost, F11 TypeError), not proved.",
         design="DESIGN §8 C09",
         technique="Lean 4 proof (acceptance iff validity; MRO table regenerated from the source) + constructor/text/garbage correspondence"),
     "C07": dict(
         text="Theorems over the Lean model of TimePointParser (get_info / get_date_info / get_time_info / "
-             "get_time_zone_info / process_time_zone_info) whose regular expressions are templates regenerated on "
-             "every run from the regex objects the live parser compiled (expanded digits 0/2/3 x basic-only): "
-             "C07_template_roundtrip - every template matches the text it spells for any fitting group assignment and "
-             "groupdict() is that assignment; C07_overlaps / C07_first_match_tables (kernel-decided over the regenerated "
-             "tables) + C07_first_match - no earlier entry of the try-order catches a rendered form, the complete list of "
-             "genuine overlaps (truncated forms only) is proved, not assumed; C07_split / C07_groups / C07_groups_date - "
-             "get_info cuts date, time and zone exactly (Z, +, - with the truncated-time retry) and returns the rendered "
-             "groups, the processed zone and the concatenated expression text. PARTIAL: the last step, groups -> "
-             "TimePoint fields (_create_timepoint_from_info: year weights, defaults, decimals) and dump_as_parsed are "
-             "modelled and tied by the three-way correspondence (implementation, Lean model, independent oracle rendering "
-             "from the documented expression strings) but their theorem is not yet stated; decimals are digit strings, "
-             "floats observed; F12 (7-9 digit decimals rounded by dump_as_parsed) is a known finding.",
+             "get_time_zone_info / process_time_zone_info / _create_timepoint_from_info / TimePoint.__init__) whose regular "
+             "expressions are templates regenerated on every run from the regex objects the live parser compiled (expanded "
+             "digits 0/2/3 x basic-only). Regex half: C07_template_roundtrip, C07_overlaps / C07_first_match_tables "
+             "(kernel-decided over the regenerated tables) + C07_first_match, C07_split / C07_groups / C07_groups_date - a "
+             "rendered form is matched by its own entry, the complete list of genuine overlaps (truncated forms only) is "
+             "proved, get_info cuts date, time and zone exactly. Value half (Props/C07b, generic over the tables with "
+             "kernel-decided side conditions): C07_decode / C07_decode_date / C07_parse - for every complete and reduced "
+             "non-truncated date form x every non-truncated time form (decimals incl.) x every zone form or none, and every "
+             "assignment of field values fitting the widths, parse of the spelled text is the constructor applied to exactly "
+             "those values (year = +-(10000 X + 100 CC + YY), zone sign on hours and minutes, hh-only zone -> minutes 0, "
+             "missing zone by configuration); C07_defaults(_fields) - omitted lower-order fields take the start of the period; "
+             "C07_accept - accepted iff the values form a valid date-time; C07_decode_no_expanded_digits - with zero expanded "
+             "digits the signed forms are refused (DESIGN §9). PARTIAL: truncated forms and dump_as_parsed reproduction are "
+             "decided by the three-way correspondence; decimals are digit strings (floats observed); F12 known finding.",
         design="DESIGN §8 C07, §13",
         technique="Lean 4 proof (generic template round trip by induction; table facts by kernel evaluation over templates "
                   "regenerated from the live regexes) + three-way correspondence"),
